@@ -36,6 +36,9 @@ type e2eCase struct {
 	Where  []int        `json:"where"`
 	Base   int64        `json:"base"` // value bound to marker i is Base+7*i
 	Shape  int          `json:"shape"`
+	// DashEvery > 0: every marker whose index is a multiple of it is written "7--?"
+	// (minus minus: "--" not followed by white space is no comment, the ? is a parameter)
+	DashEvery int `json:"dash_every"`
 }
 
 var e2eSeq int64
@@ -86,6 +89,9 @@ func genE2E(t *rapid.T) e2eCase {
 	}
 	c.Base = int64(rapid.IntRange(-1000, 1<<40).Draw(t, "base"))
 	c.Shape = rapid.IntRange(0, 1).Draw(t, "shape")
+	if rapid.IntRange(0, 2).Draw(t, "dash") == 0 {
+		c.DashEvery = rapid.SampledFrom([]int{1, 2, 3, 7}).Draw(t, "dash_every")
+	}
 	return c
 }
 
@@ -132,6 +138,9 @@ func buildStatement(c e2eCase, tag string) (string, []int) {
 		}
 		if !first {
 			b.WriteString(" , ")
+		}
+		if c.DashEvery > 0 && i%c.DashEvery == 0 {
+			b.WriteString("7--")
 		}
 		offs = append(offs, b.Len())
 		b.WriteString("?")
@@ -289,6 +298,9 @@ func checkE2E(c e2eCase) (o pbt.Outcome) {
 	}
 	if hidden > 1 {
 		o.Labels = append(o.Labels, "decoy_question_marks")
+	}
+	if c.DashEvery > 0 && c.N > 0 {
+		o.Labels = append(o.Labels, "minus_minus_markers")
 	}
 
 	// ---- COM_STMT_PREPARE, response read by hand ----
